@@ -206,6 +206,14 @@ def one_document(ctx, schema, holder, dump, sdl, enum_kind, label, text, variabl
                      c.replay_data({"impl": c.impl, "label": label}))
             return "accepted"
         if "data" in c.impl:
+            for e in c.impl["errors"]:
+                if e["kind"] == "directive":
+                    # invalid @skip/@include condition at run time: a field error (root: data null), never an exception
+                    ctx.stat("directive-field-error:" + ("root" if not e["path"] else "nested"))
+                    if (not e["path"]) != (c.impl["data"] is None):
+                        ctx.fail("directive-error-shape:%s" % (label or K.features_sig(text)),
+                                 "a directive-condition error without path must come with data = null (root selection set), one with a path with data",
+                                 c.replay_data({"impl": c.impl, "label": label}))
             why = check_shape(dump, c.docj, c.opname, c.coerced, c.impl, c.seed)
             if why:
                 ctx.fail("shape-mismatch:%s" % (label or K.features_sig(text)),
@@ -390,7 +398,7 @@ def run(ctx):
         ctx.notes.append("Lean driver not available: only the direct oracle ran")
 
 
-FIXED_SDL = ("type Query { a(l: [Int], x: String, o: In, i: Int): Int, b: Ob, u: U, n: Node, ns: [Node!], s: String! }\n"
+FIXED_SDL = ("type Query { a(l: [Int], x: String, o: In, i: Int): Int, b: Ob, u: U, n: Node, ns: [Node!], s: String!, lim(limit: Int = 2, o: In = {a: 1}): Int }\n"
              "type Ob implements Node { id: ID, t(x: Int): String, a(l: [Int]): Int, b: Ob, only: Other }\n"
              "type Other implements Node { id: ID, t(x: Int): String, c: String, b: Ob, d: Int }\n"
              "interface Node { id: ID, t(x: Int): String, b: Ob }\ninput In { a: Int }\nunion U = Ob | Other\n")
@@ -411,7 +419,28 @@ FIXED = [
     ("typename-only", "{ __typename }", {}),
     ("V8-list-literal-at-directive-condition", "{ a @include(if: [true]) }", {}),
     ("V8-list-literal-with-variable", "query($b: Boolean!) { s @skip(if: [$b]) }", {"b": False}),
+    ("V8-list-literal-nested", "{ b { id @include(if: [true]) } a }", {}),
+    ("V8-list-literal-under-list-item", "{ ns { b { id @skip(if: [true]) } } s }", {}),
+    ("V8-list-literal-at-spread", "{ b { ...G @skip(if: [false]) } a } fragment G on Ob { id }", {}),
+    ("directive-null-variable-root", "query($v: Boolean = true){ b @skip(if:$v) { id } a }", {"v": None}),
+    ("directive-null-variable-root-include", "query($v: Boolean = false){ a s @include(if:$v) }", {"v": None}),
+    ("directive-null-variable-nested", "query($v: Boolean = true){ b { id @include(if:$v) } a }", {"v": None}),
+    ("directive-null-variable-list", "query($v: Boolean = true){ ns { id t @skip(if:$v) } s }", {"v": None}),
+    ("directive-null-variable-abstract-item", "query($v: Boolean = true){ ns { __typename ... on Other { c @skip(if: $v) } } u { ... on Ob { id @skip(if: $v) } } }", {"v": None}),
+    ("directive-null-variable-fragment", "query($v: Boolean = true){ b { ...F } a } fragment F on Ob { id b { a @include(if:$v) } }", {"v": None}),
+    ("directive-null-variable-inline", "query($v: Boolean = true){ n { ... on Node @skip(if:$v) { id } } a }", {"v": None}),
+    ("directive-null-variable-default-used", "query($v: Boolean = true){ b @skip(if:$v) { id } a }", {}),
     ("list-literal-at-scalar-argument", "{ a(i: [1]) }", {}),
+    ("null-literal-vs-default", "{ lim lim(limit: null) }", {}),
+    ("null-literal-vs-default-reversed", "{ lim(limit: null) lim }", {}),
+    ("null-literal-vs-default-object", "{ lim(o: null) lim }", {}),
+    ("null-literal-vs-default-nested-fragment", "{ lim ...N } fragment N on Query { lim(limit: null) }", {}),
+    ("null-literal-both", "{ lim(limit: null) lim(limit: null) }", {}),
+    ("fragment-cycle-beside-acyclic", "{ ...Loop ...Alpha } fragment Alpha on Query { s } fragment Loop on Query { ...Back } fragment Back on Query { ...Loop }", {}),
+    ("fragment-cycle-beside-acyclic-first", "{ ...Alpha ...Loop } fragment Loop on Query { ...Back s } fragment Back on Query { ...Loop ...Alpha } fragment Alpha on Query { s }", {}),
+    ("fragment-cycle-beside-acyclic-last", "{ ...Loop ...Zed } fragment Zed on Query { s } fragment Loop on Query { ...Back } fragment Back on Query { ...Loop }", {}),
+    ("fragment-self-cycle-beside-acyclic", "{ ...Self ...Alpha } fragment Alpha on Query { s } fragment Self on Query { s ...Self }", {}),
+    ("fragment-cycle-three-beside-acyclic", "{ ...Alpha ...L1 } fragment L1 on Query { ...L2 } fragment L2 on Query { ...L3 ...Alpha } fragment L3 on Query { ...L1 } fragment Alpha on Query { a }", {}),
     ("seen-fragments-quirk", "{ ... on Query { ...F } ...F n { ... { ...G } ...G } } fragment F on Query { s a } fragment G on Node { id }", {}),
     ("meta-on-non-root", "{ b { __schema { types { name } } } }", {}),
     ("same-key-object-then-abstract", "{ n { ... on Ob { k: a } ... on Node { k: id } } }", {}),
@@ -474,6 +503,7 @@ def flush_lean(ctx, batch):
                      c.replay_data({"label": label}), kind="correspondence")
         ctx.stat("key-consistent:%s" % a.get("key_consistent"))
         ctx.stat("merge-safe:%s" % a.get("merge_safe"))
+        ctx.stat("dirs-strict:%s" % a.get("dirs_strict"))
         if a.get("merge_safe") and a.get("key_consistent") is False:
             ctx.stat("merge-safe-but-not-key-consistent")
             if label:
